@@ -25,7 +25,7 @@ from .. import keys as K, seams, sched
 
 ID = "C20"
 LEVEL = "exploration"
-RUNS = {"quick": 9100, "thorough": 250000}
+RUNS = {"quick": 7000, "thorough": 250000}
 BUDGET = {"quick": 80, "thorough": 1800}
 RULE = ("one run = one fresh shared world + a seeded list of 2-32 operations from an 84-entry catalogue, executed by that many "
         "caller threads under one seeded schedule: sequential history | sweep1 (one pre-emption at a chosen line of the first "
@@ -626,6 +626,39 @@ def _short(x):
     return s if len(s) < 160 else s[:157] + "..."
 
 
+def ensure_baselines(world_label: str) -> None:
+    """isolation baseline of every operation, each computed in its own forked child of the still pristine worker, so that
+    no state an operation might leave behind (in a key, registry or algorithm singleton) can reach another baseline"""
+    import os
+    import pickle
+    table = ops()
+    todo = [n for n in sorted(table) if (world_label, n) not in _ISO]
+    for n in todo:
+        r, w_ = os.pipe()
+        pid = os.fork()
+        if pid == 0:
+            code = 0
+            try:
+                os.close(r)
+                w0, o0 = execute(world_label, [n], {"kind": "sequential"})
+                data = pickle.dumps(canon(w0, n, table[n][1], o0.results[0]))
+                with os.fdopen(w_, "wb") as f:
+                    f.write(data)
+            except BaseException:
+                import traceback
+                traceback.print_exc()
+                code = 3
+            finally:
+                os._exit(code)
+        os.close(w_)
+        with os.fdopen(r, "rb") as f:
+            data = f.read()
+        _, status = os.waitpid(pid, 0)
+        if status != 0 or not data:
+            raise RuntimeError("isolation baseline child failed for %s" % n)
+        _ISO[(world_label, n)] = pickle.loads(data)
+
+
 _WARM = False
 
 
@@ -636,6 +669,7 @@ def warm_up(world_label: str) -> None:
     global _WARM
     if _WARM:
         return
+    ensure_baselines(world_label)       # first: while this process is still pristine
     names = sorted(ops())
     for _ in range(2):
         execute(world_label, names, {"kind": "sequential", "opcode": True})
